@@ -56,12 +56,6 @@ class Models09(StateModels):
         StateModels.__init__(self)
         self.summarise_maybe_attach = False
 
-    def contract_for(self, ex, path, f, args, kw):
-        if self.summarise_maybe_attach and f.qualname == 'TorState._maybe_attach':
-            self.glog_add(path, 'maybe_attach_calls', tuple(args))
-            return [(path, NONE)]
-        return StateModels.contract_for(self, ex, path, f, args, kw)
-
     def method(self, ex, path, recv, name, args, kw):
         if isinstance(recv, VOpaque) and recv.kind == 'stream':
             if name == 'listen':
@@ -84,6 +78,32 @@ class Models09(StateModels):
             ans = path.heap[('g', 'answer', str(recv.t))]
             return [(path, ans)]
         return StateModels.method(self, ex, path, recv, name, args, kw)
+
+    def contract_for(self, ex, path, f, args, kw):
+        if self.summarise_maybe_attach and f.qualname == 'TorState._maybe_attach':
+            self.glog_add(path, 'maybe_attach_calls', tuple(args))
+            return [(path, NONE)]
+        if f.qualname == 'Circuit.when_built':
+            return [(path, VOpaque('Deferred', ex.fresh_int(path, 'builtd')))]
+        if f.qualname == 'maybe_ip_addr':
+            return [(path, args[0])]
+        return StateModels.contract_for(self, ex, path, f, args, kw)
+
+    def await_(self, ex, path, fr, v, node):
+        n = len(self.glog(path, 'awaited'))
+        self.glog_add(path, 'awaited', v)
+        self.assumptions.add('A3 inlineCallbacks: a yield resumes with the Deferred result or throws its failure into the generator')
+        pr = path.fork()
+        b = z3.Bool('await%d_fails' % n)
+        pr.assume(b)
+        path.assume(z3.Not(b))
+        exc = ex.new_inst(pr, Exception, args=VTuple([VStr('awaited deferred failed')]))
+        return [(path, VOpaque('result', ex.fresh_int(path, 'res'))), (pr, Raise(exc))]
+
+    def opaque_attr(self, ex, path, obj, name):
+        if obj.kind == 'address' and name in ('host', 'port'):
+            return [(path, path.heap[('g', 'addr_' + name)])]
+        return StateModels.opaque_attr(self, ex, path, obj, name)
 
     def opaque_call(self, ex, path, f, args, kw):
         if f.kind == 'stream_factory':
@@ -460,8 +480,125 @@ def unit_priority(n):
     return run
 
 
+def _circuit_attacher(ctx, path):
+    import txtorcon.circuit as cm
+    ex = ctx.ex
+    at = ex.new_inst(path, cm._CircuitAttacher)
+    host0, port0 = z3.String('registered_host'), z3.Int('registered_port')
+    circ = ex.new_inst(path, cm.Circuit)
+    cstate = z3.String('circuit_state')
+    path.heap[('f', circ.oid, 'state')] = VStr(cstate)
+    path.heap[('f', circ.oid, 'id')] = VInt(z3.Int('circuit_id'))
+    d = VOpaque('Deferred', 610)
+    path.heap[('f', at.oid, '_circuit_targets')] = ex.new_dict(path, [(VTuple([VStr(host0), VInt(port0)]), VTuple([circ, d]))])
+    return at, circ, d, host0, port0, cstate
+
+
+def _src_stream(ctx, path):
+    import txtorcon.stream as sm
+    s = ctx.ex.new_inst(path, sm.Stream)
+    sa, sp = z3.String('source_addr'), z3.Int('source_port')
+    path.heap[('f', s.oid, 'source_addr')] = VStr(sa)
+    path.heap[('f', s.oid, 'source_port')] = VInt(sp)
+    return s, sa, sp
+
+
+def unit_via_attach():
+    """_CircuitAttacher.attach_stream: matching by local source address and port; unrelated streams are left to Tor"""
+    def run(ctx):
+        import txtorcon.torstate as ts
+        ctx.fn('txtorcon.circuit', '_CircuitAttacher.attach_stream')
+        ctx.fn('txtorcon.circuit', '_CircuitAttacher._do_not_attach')
+        ex = ctx.ex
+        path = ctx.new_path()
+        at, circ, d, host0, port0, cstate = _circuit_attacher(ctx, path)
+        stream, sa, sp = _src_stream(ctx, path)
+        for nm, t in (('registered_host', host0), ('source_addr', sa), ('circuit_state', cstate)):
+            ctx.input(nm, VStr(t))
+        ctx.input('registered_port', VInt(port0))
+        ctx.input('source_port', VInt(sp))
+        mine = z3.And(sa == host0, sp == port0)
+        unusable = z3.Or(*[cstate == mk_str(x) for x in ('FAILED', 'CLOSED', 'DETACHED')])
+        ctx.cover('pre_mine', path, mine)
+        ctx.cover('pre_unrelated', path, z3.Not(mine))
+        g = ex.getattr_v(path, at, 'attach_stream')
+        for p, r in ex.call(g[0][0], g[0][1], [stream, VOpaque('circmap', 2)], {}):
+            fired = ctx.models.glog(p, 'fired')
+            left = p.heap[('dict', p.heap[('f', at.oid, '_circuit_targets')].did)]
+            aw = ctx.models.glog(p, 'awaited')
+            build_failed = z3.Bool('await0_fails') if aw else B(False)
+            if isinstance(r, Raise):
+                ctx.oblige('no_exception', p, B(False), clause='invalid answers are reported; the attacher itself does not raise')
+                continue
+            ctx.oblige('post.unrelated_stream_is_left_to_tor_and_nothing_is_consumed', p,
+                       z3.Implies(z3.Not(mine), B(isinstance(r, VNone) and len(left) == 1 and not fired and not aw)),
+                       clause='unrelated streams are never captured by it')
+            is_dna = isinstance(r, VConc) and r.obj is ts.TorState.DO_NOT_ATTACH
+            ok_attach = (r is circ and len(fired) == 1 and fired[0][0] is d and fired[0][1] == 'ok' and len(left) == 0)
+            ok_refuse = (is_dna and len(fired) == 1 and fired[0][0] is d and fired[0][1] == 'err' and len(left) == 0)
+            ctx.oblige('post.own_stream_goes_to_exactly_its_circuit', p,
+                       z3.Implies(z3.And(mine, z3.Not(build_failed), z3.Not(unusable)), B(ok_attach)),
+                       clause='a connection made through a specific circuit is attached to exactly that circuit, matched by its local source address and port')
+            ctx.oblige('post.unusable_circuit_fails_the_connect_and_is_not_handed_to_tor', p,
+                       z3.Implies(z3.And(mine, z3.Or(build_failed, unusable)), B(ok_refuse)),
+                       clause='attached to exactly that circuit (or not at all)')
+    return run
+
+
+def unit_via_register():
+    def run(ctx):
+        ctx.fn('txtorcon.circuit', '_CircuitAttacher._add_real_target')
+        import txtorcon.circuit as cm
+        ex = ctx.ex
+        path = ctx.new_path()
+        at = ex.new_inst(path, cm._CircuitAttacher)
+        path.heap[('f', at.oid, '_circuit_targets')] = ex.new_dict(path, [])
+        addr = VOpaque('address', 3)
+        host, port = z3.String('local_host'), z3.Int('local_port')
+        path.heap[('g', 'addr_host')] = VStr(host)
+        path.heap[('g', 'addr_port')] = VInt(port)
+        circ, d = VOpaque('circuit', 4), VOpaque('Deferred', 610)
+        g = ex.getattr_v(path, at, '_add_real_target')
+        for p, r in ex.call(g[0][0], g[0][1], [addr, circ, d], {}):
+            if isinstance(r, Raise):
+                ctx.oblige('no_exception', p, B(False))
+                continue
+            pairs = p.heap[('dict', p.heap[('f', at.oid, '_circuit_targets')].did)]
+            ok = len(pairs) == 1 and isinstance(pairs[0][0], VTuple) and len(pairs[0][0].items) == 2 and isinstance(pairs[0][1], VTuple) \
+                and pairs[0][1].items[0] is circ and pairs[0][1].items[1] is d
+            ctx.oblige('post.registered_under_local_host_and_port', p,
+                       zand(B(ok), pairs[0][0].items[0].t == host, pairs[0][0].items[1].t == port) if ok else B(False),
+                       clause='matched by its local source address and port')
+    return run
+
+
+def unit_via_failure():
+    def run(ctx):
+        ctx.fn('txtorcon.circuit', '_CircuitAttacher.attach_stream_failure')
+        ex = ctx.ex
+        path = ctx.new_path()
+        at, circ, d, host0, port0, cstate = _circuit_attacher(ctx, path)
+        stream, sa, sp = _src_stream(ctx, path)
+        mine = z3.And(sa == host0, sp == port0)
+        fail = VOpaque('failure', 9)
+        g = ex.getattr_v(path, at, 'attach_stream_failure')
+        for p, r in ex.call(g[0][0], g[0][1], [stream, fail], {}):
+            if isinstance(r, Raise):
+                ctx.oblige('no_exception', p, B(False))
+                continue
+            fired = ctx.models.glog(p, 'fired')
+            left = p.heap[('dict', p.heap[('f', at.oid, '_circuit_targets')].did)]
+            ctx.oblige('post.failure_reaches_exactly_the_waiting_connect', p,
+                       z3.If(mine, B(len(fired) == 1 and fired[0][0] is d and fired[0][1] == 'err' and fired[0][2] is fail and len(left) == 0),
+                             B(len(fired) == 0 and len(left) == 1)),
+                       clause='invalid answers are reported; unrelated streams are never captured')
+    return run
+
+
 def units():
     us = [('C09/_maybe_attach@prologue', unit_prologue())]
+    us += [('C09/_CircuitAttacher.attach_stream', unit_via_attach()), ('C09/_CircuitAttacher._add_real_target', unit_via_register()),
+           ('C09/_CircuitAttacher.attach_stream_failure', unit_via_failure())]
     us += [('C09/issue_stream_attach@%s' % a, unit_issue(a)) for a in ANSWERS]
     us += [('C09/set_attacher@%s/%s' % (s, a), unit_set_attacher(s, a)) for s in SLOTS for a in ARGS]
     us += [('C09/_stream_update@%s' % ('known' if k else 'new'), unit_stream_update(k)) for k in (False, True)]
